@@ -13,6 +13,8 @@ EXPLANATION = (
     "(R-C04-flag-bits) the four copies extract/set the same bits of the CONNECT flags, PUBLISH header flags, SUBSCRIBE options and CONNACK flags (masks normalised over shift spelling), and in the CONNECT family every field the reader extracts is one the writer sets and vice versa; "
     "(R-C04-prop-accounting) in every MQTT 5 properties reader each variable-length value read contributes its own len() plus a 2-byte prefix to the consumed-bytes counter exactly once; "
     "(R-C04-len-strings) in every len() of the four codecs (and the per-item closures they fold over) each string len() is added together with a 2-byte length prefix; "
+    "(R-C04-kinds) every packet kind a codec's encoder has an arm for is one its decoder can produce; (R-C04-zero-length) a reader that accepts remaining length 0 is reachable for such a frame; "
+    "(R-C04-props-none) a packet's len() counts the zero property-length byte its writer emits when there are no properties; "
     "NOT decided (the bulk of the statement): decode(encode(p)) == p, size() == bytes written, exact consumption for all packet values.")
 ASSUMPTIONS = ["rustc MIR construction and constant evaluation are correct", "rules/mqtt5_properties.json transcribes table 2-4 of the OASIS MQTT 5.0 specification"]
 TECHNIQUE = "static analysis: handler-table extraction from MIR switch arms, constant provenance, writer/reader wire-type sequences, sibling signature comparison"
@@ -115,6 +117,7 @@ def run(ctx):
         prog = ctx.progs[crate]
         ctx.guarded("R-C04-type-nibble", type_nibble, ctx, prog, name, pre, entry, ptype)
         ctx.guarded("R-C04-reason-tables", reason_tables, ctx, prog, name, pre)
+        ctx.guarded("R-C04-kinds", kinds_agree, ctx, prog, name, entry)
     tables = {}
     for name in ("rumqttd-v5", "rumqttc-v5"):
         crate, pre, entry, ptype = COPIES[name]
@@ -918,3 +921,45 @@ def zero_length_dispatch(ctx, prog, name, pre, entry):
                           "%s: %s::read accepts remaining_len == 0, and the writer emits that two-byte frame, but the dispatcher's `remaining_len == 0` shortcut only knows %s and answers PayloadRequired for it: the codec cannot decode its own (and the peer's) short %s"
                           % (name, mod, sorted(accepted), mod.upper()), site=disp.loc(disp.blocks[zero_sw[0]]["t"].get("sp")))
     return n
+
+
+# ------------------------------------------------------------------------------------------
+# R-C04-kinds: every packet kind the codec can write, it can read
+
+WRITE_ENTRIES = {
+    "rumqttd-v4": r"^<protocol::v4::V4 as protocol::Protocol>::write$",
+    "rumqttd-v5": r"^<protocol::v5::V5 as protocol::Protocol>::write$",
+    "rumqttc-v4": r"^mqttbytes::v4::Packet::write$",
+    "rumqttc-v5": r"^v5::mqttbytes::v5::Packet::write$",
+}
+
+
+def kinds_agree(ctx, prog, name, entry):
+    """'for every packet type': the set of Packet variants the codec's encoder has an arm for is a subset of the
+    variants its decoder can produce (a kind that can only be written does not round-trip)."""
+    rule = "R-C04-kinds"
+    wb = prog.one(WRITE_ENTRIES[name])
+    rb = prog.one(entry)
+    wsw = [s_ for s_ in discr_switches(wb, r"Packet$") if len(s_[2]) >= 8]
+    if not wsw:
+        raise AnchorMissing("%s: match on Packet in %s not found" % (name, wb.id))
+    sw = max(wsw, key=lambda s_: len(s_[2]))
+    dom = dominators(wb)
+    writable = set()
+    for variant, tgt in sw[2].items():
+        region = {b for b in reachable(wb, (tgt,)) if tgt in dom.get(b, ())}
+        if any(wb.blocks[b]["t"]["k"] == "call" and re.search(r"::write$", callee_path(wb.blocks[b]["t"])) for b in region):
+            writable.add(variant)
+    readable = set()
+    for blk in rb.blocks:
+        for st in blk["s"]:
+            if "lhs" in st and st["rv"]["k"] == "agg" and st["rv"].get("adt", "").endswith("Packet") and st["rv"].get("var"):
+                readable.add(st["rv"]["var"])
+    ctx.floor(rule, "packet kinds with an encoder arm in %s" % name, len(writable), 10)
+    for v in sorted(writable):
+        if v in readable:
+            ctx.ok(rule, wb.id, "%s: Packet::%s can be written and read" % (name, v), trivial=True)
+        else:
+            ctx.violation(rule, wb.id, "Packet::%s is write-only" % v,
+                          "%s: the encoder has an arm for Packet::%s but the decoder never produces it (its packet type is not even mapped): such a packet does not round-trip through this codec" % (name, v), site=wb.fn_loc())
+    ctx.ok(rule, wb.id, "%s: %d writable kinds examined against %d readable kinds" % (name, len(writable), len(readable)))
